@@ -13,6 +13,7 @@ import (
 	"strconv"
 	"strings"
 	"sync"
+	"sync/atomic"
 	"time"
 )
 
@@ -266,6 +267,25 @@ func verifBytesEqual(a, b []byte) bool { return string(a) == string(b) }
 // verifCondBroadcasts / verifNeedsWaiter: ghost view of a condition variable (symbolic run only).
 func verifCondBroadcasts(c *sync.Cond) int      { return 0 }
 func verifNeedsWaiter(c *sync.Cond, since int) {}
+
+// verifCAS32 stands in for atomic.CompareAndSwapInt32 in native replays: the interference another
+// goroutine makes between the caller's earlier read and the operation (the model says whether, and
+// in which direction) is applied first.  verifCasDelta is the sum of interference per cell.
+var verifCasDeltas = map[*int32]int32{}
+
+func verifCAS32(p *int32, old, new int32) bool {
+	interf, up := verifBool("casInterfered@"), verifBool("casUp@")
+	if interf {
+		d := int32(-1)
+		if up {
+			d = 1
+		}
+		atomic.AddInt32(p, d)
+		verifCasDeltas[p] += d
+	}
+	return atomic.CompareAndSwapInt32(p, old, new)
+}
+func verifCasDelta(p *int32) int32 { return verifCasDeltas[p] }
 
 func verifResetLocks() {}
 func verifLockHookFrom(n int) {}
